@@ -52,11 +52,18 @@ func parseTimeZoneToNas(timezone string) int {
 		time += 0
 	}
 
+	negative := timezone[0] == '-'
+	if time < 0 {
+		// the daylight saving adjustment moved a zone west of UTC across UTC
+		time = 0 - time
+		negative = false
+	}
+
 	// Convert decimal to binary-coded decimal
 	time = toBinaryCodedDecimal(time)
 
 	// Add signed number
-	if timezone[0] == '-' {
+	if negative {
 		time |= 0x80
 	}
 
